@@ -214,16 +214,21 @@ Theorem C13_fresh_scope_store_refuted :
 Proof. exact store_variant_refuted. Qed.
 Print Assumptions C13_fresh_scope_store_refuted.
 
-(* --- the background refresher (updateTS.doUpdate) is a further writer of the same cell: per scope it performs
-       getTimestamp + setLastTS, i.e. it is one of the n threads of the system (any of them, any number of rounds, any
-       interleaving with the foreground callers): restated here with the roles explicit — whichever threads are
-       refresher rounds, as long as they publish through the CAS loop the cached value never decreases and is a
-       timestamp PD issued; if a refresher round publishes with a plain Store instead, it can go back --- *)
-Theorem C13_refresher : forall (pd : nat -> Z) n es1 es2,
-  let s1 := fold_left (step_rstore pd (fun _ => false)) es1 (init_sys n) in
-  let s2 := fold_left (step_rstore pd (fun _ => false)) es2 s1 in
+(* --- the background refresher (updateTS.doUpdate) is a further writer of the same cell.  ModelSys.step_role: role is
+       an ARBITRARY predicate on the threads; a thread with role t = true is a refresher round: it can only be launched
+       for a scope that already has an entry (doUpdate ranges over lastTSMap), then runs getTimestamp + setLastTS like
+       any caller; the schedule is arbitrary and may contain PD failures (EvFail) of refresher rounds and of callers.
+       For every role, n and schedule: the cached value never decreases, stays once present, is a timestamp PD issued;
+       a launched refresher round always finds the entry and never takes the LoadOrStore (first-use) branch.
+       If a refresher round publishes with a plain Store instead, the value can go back (_store_refuted). --- *)
+Theorem C13_refresher : forall (pd : nat -> Z) (role : nat -> bool) n es1 es2,
+  let s1 := run_role pd role (init_sys n) es1 in
+  let s2 := run_role pd role s1 es2 in
   ole (lowres s1) (lowres s2) /\
-  (forall v, lowres s2 = Some v -> exists i, (i < issued s2)%nat /\ v = pd i).
+  (lowres s1 <> None -> lowres s2 <> None) /\
+  (forall v, lowres s2 = Some v -> exists i, (i < issued s2)%nat /\ v = pd i) /\
+  (forall t th, nth_error (thr s2) t = Some th -> role t = true ->
+     (tpc th <> PIdle -> lowres s2 <> None) /\ (forall ts, tpc th <> PLoadOrStore ts)).
 Proof. exact T_C13_refresher. Qed.
 Print Assumptions C13_refresher.
 
@@ -264,17 +269,20 @@ Theorem C13_stale_not_future : forall (pd : nat -> Z) (pd_ns : Z -> Z),
 Proof. exact T_C13_stale_not_future. Qed.
 Print Assumptions C13_stale_not_future.
 
-(* --- refresh outcomes including failures: every schedule may contain PD failures (EvFail) of foreground calls and
-       of refresher rounds alike; a failed round leaves the published record alone, the entry of the scope stays, the
-       cached value never decreases and is a timestamp PD issued (per scope: every scope is its own instance of the
-       system).  The variant that drops the scope's entry on a failed refresher round is refuted: a PD answer issued
+(* --- a failed refresh: in any run with any role assignment, take a refresher round t that has been launched and waits
+       for PD, and let its PD request fail: the published record is untouched, the scope's entry is there (the round was
+       launched for it) and stays, the round ends with an error, and whatever happens afterwards the cached value does
+       not go below what it was and remains a timestamp PD issued (per scope: every scope is its own instance).  The
+       variant that drops the scope's entry on a failed refresher round is refuted (_delete_refuted): a PD answer issued
        earlier but arriving later re-creates the entry with an older timestamp. --- *)
-Theorem C13_refresher_failure : forall (pd : nat -> Z) n es1 es2 t,
-  let s1 := fold_left (step_rdelete pd (fun _ => false)) es1 (init_sys n) in
-  let s2 := fold_left (step_rdelete pd (fun _ => false)) es2 s1 in
-  cell (step pd s1 (EvFail t)) = cell s1 /\
-  (lowres s1 <> None -> lowres s2 <> None) /\
-  ole (lowres s1) (lowres s2) /\
+Theorem C13_refresher_failure : forall (pd : nat -> Z) (role : nat -> bool) n es t th es2,
+  let s := run_role pd role (init_sys n) es in
+  role t = true -> nth_error (thr s) t = Some th -> tpc th = PWaitPD ->
+  let s' := step_role pd role s (EvFail t) in
+  let s2 := run_role pd role s' es2 in
+  cell s' = cell s /\ lowres s <> None /\
+  (exists th', nth_error (thr s') t = Some th' /\ tpc th' = PDone None) /\
+  ole (lowres s) (lowres s2) /\ lowres s2 <> None /\
   (forall v, lowres s2 = Some v -> exists i, (i < issued s2)%nat /\ v = pd i).
 Proof. exact T_C13_refresher_failure. Qed.
 Print Assumptions C13_refresher_failure.
@@ -307,16 +315,19 @@ Theorem C13_validate_from_cache : forall st scope read stale pds l,
 Proof. exact validate_from_cache. Qed.
 Print Assumptions C13_validate_from_cache.
 
-(* --- the call-level model refines the CAS-level system: running the calls one after the other (each thread gets
-       nine scheduler slots) publishes exactly what Model.set_last (publish the maximum) computes, every call returns
-       PD's answer, untouched threads stay idle --- *)
-Theorem C13_setlast_refines : forall (pd : nat -> Z) n m, (m <= n)%nat ->
+(* --- the SEQUENTIAL case of "the CAS-level system implements the call-level fold": for the schedule seq_sched m that
+       runs the calls one after the other (each thread gets nine scheduler slots) the system publishes exactly what
+       Model.set_last (publish the maximum) computes, every call returns PD's answer, untouched threads stay idle.
+       This is NOT a refinement proof for every schedule; for arbitrary schedules the corresponding facts are
+       C13_lastts_monotone / C13_fresh_scope (never decreases, always issued) and C13_lowres_catches_up (>= every
+       returned timestamp).  It justifies the call-level model used by the sequential driver classes. --- *)
+Theorem C13_setlast_refines_sequential : forall (pd : nat -> Z) n m, (m <= n)%nat ->
   let s := run pd (init_sys n) (seq_sched m) in
   lowres s = get_last (seq_state pd m) 1 /\ issued s = m /\
   (forall j, (m <= j < n)%nat -> nth_error (thr s) j = Some idle_thread) /\
   (forall j, (j < m)%nat -> exists th, nth_error (thr s) j = Some th /\ tpc th = PDone (Some (pd j))).
 Proof. exact seq_refines. Qed.
-Print Assumptions C13_setlast_refines.
+Print Assumptions C13_setlast_refines_sequential.
 
 (* --- GetLowResolutionTimestamp over interval changes: the oracle as a whole = the GetTimestamp/setLastTS system next
        to the exact updateTS loop state (interval record, the loop's currentInterval, the shrink channel);
@@ -498,6 +509,14 @@ Example ex_catches_up :
              ([AEv 0; AEv 1; AEv 1; AEv 0] ++ repeat (AEv 0) 8 ++ repeat (AEv 1) 8) in
   nth_error (athr s) 1 = Some (ADone (Some 10)) /\ arec s = Some (11, 0).
 Proof. vm_compute. split; reflexivity. Qed.
+(* a refresher round (thread 1) scheduled first is not launched while the scope has no entry; after thread 0 has created
+   it the round runs, and its PD failure leaves the cached 10 alone *)
+Example ex_refresher_role :
+  let role := fun t => Nat.eqb t 1 in
+  let s := run_role (fun k => Z.of_nat (10 + k)) role (init_sys 2) ([Ev 1; Ev 1] ++ repeat (Ev 0) 9 ++ [Ev 1; EvFail 1]) in
+  lowres s = Some 10 /\ option_map tpc (nth_error (thr s) 1) = Some (PDone None) /\
+  option_map tpc (nth_error (thr (run_role (fun k => Z.of_nat (10 + k)) role (init_sys 2) [Ev 1; Ev 1])) 1) = Some PIdle.
+Proof. vm_compute. repeat split; reflexivity. Qed.
 Example ex_retry_accepts :
   voutcome_of (vrun Z.of_nat true (init_vsys 2) (no_retry_sched ++ [EStep 1; EStep 1; EFlightIssue; EFlightFinish; EStep 1])) 1 = Some OAccept.
 Proof. exact retry_same_schedule. Qed.
